@@ -490,7 +490,11 @@ func (fr *Frame) applyContract(st *State, sp *FuncSpec, fn *ssa.Function, sig *t
 	for _, c := range sp.Ensures {
 		f, err := cx2.boolExpr(c.Expr)
 		if err != nil {
-			r.eng.bindError(sp, c, err)
+			// a clause that mentions the callee's local variables says nothing to callers; it is checked (and any
+			// binding problem reported) where the callee itself is verified
+			if sp.Trusted || sp.NoVerify {
+				r.eng.bindError(sp, c, err)
+			}
 			continue
 		}
 		r.assume(st, f)
@@ -994,6 +998,9 @@ func (fr *Frame) checkTransition(st *State, in ssa.Instruction, a *Addr, nv TV) 
 		if !fr.transitionApplies(ft, a.si, a.field) {
 			continue
 		}
+		if r.eng.curProp != "" && ft.Clause.Label != "" && ft.Clause.Label != r.eng.curProp {
+			continue
+		}
 		// stores into an object allocated by this function before it escapes are exempt
 		oldv := r.load(st, a)
 		cx := fr.newCtx(st, nil, true)
@@ -1042,6 +1049,15 @@ func (fr *Frame) namedStruct(si *structInfo) types.Type {
 
 func (fr *Frame) transitionApplies(ft *FieldTransition, si *structInfo, field int) bool {
 	if si.st.Field(field).Name() != ft.Field {
+		return false
+	}
+	pk := ""
+	if fr.fn.Pkg != nil {
+		pk = fr.fn.Pkg.Pkg.Path()
+	} else if fr.fn.Parent() != nil && fr.fn.Parent().Pkg != nil {
+		pk = fr.fn.Parent().Pkg.Pkg.Path()
+	}
+	if pk != ft.Pkg {
 		return false
 	}
 	// type name match (package-local name)
